@@ -40,6 +40,11 @@ CLAIMED = {
   text='Decides exactly: the UTF-8 decoder acceptance set per length (all 2^32 byte quadruples, by interval analysis); the encoders range dispatch, assert-freedom on every scalar value and their code units (thorough: every code point; quick: boundaries, bit probes, stride); the set of escape introducers the lexer accepts; digit predicates. Decides on a finite table (stated non-exhaustive): decoded values of escapes, element type / code units / length of concatenated literals for all prefix pairs, character-constant types and values per target. Cases C11 leaves implementation-defined are not judged.',
   note='Trusts clang 14 front end, lib/eai.py + lib/ivl.py, the token-cursor and array/buffer models in props/c14.py, Python\'s UTF-8/16 codecs as the Unicode oracle. One known finding (out-of-range string escapes truncated; upstream test pins it).',
   design='5/C14'),
+ 'C19': dict(
+  technique='CFG dataflow over clang ASTs: conditional constant propagation under an end-of-input seed from every token-loop head with context-sensitive callee summaries; belief-inferred nullable-result and released-variable analyses; dominator rules for the output/exit discipline; E-AI over bounded index domains',
+  text='Decides structural clauses: every one of the 32 token-driven parser loops and the character-level scanner loops exits at end of input; nullable results are tested before dereference (incl. through dereferencing callees); nothing is read after release; exit statuses are the constants 1/2 and main returns 0 only behind fflush + terminal ferror test; input read errors are consulted; NULL never reaches %s; the initializer object stack, zero()\'s store table (all alignments), the AVL ancestor stack and LEN()-guarded tables stay in bounds; literal scanners reject NUL bytes. Full memory safety, recursion depth and unreachability of every assert are NOT decided.',
+  note='Trusts clang 14 front end, lib/cfg.py / lib/flow.py / lib/eofccp.py (the token-API model: next() identity at EOF is itself checked on scankind), reviewed exception tables NULL_EXCEPTIONS / INDEX_EXCEPTIONS in props/c19.py (one line of reason each).',
+  design='5/C19'),
  'C01': dict(
   technique='abstract interpretation (partial evaluation of the lowering functions over the static type/operator descriptor domain) + AST table extraction vs C11/QBE oracle tables',
   text='Decides structural clauses only: the instruction-selection, conversion, load/store, truthiness and bit-field shift tables that every compiled program is lowered through are extracted from the current source by an abstract interpreter and compared exhaustively (over the finite descriptor domain) with oracle tables written from C11 and the QBE manual; sibling switches are checked for exhaustiveness. Semantic equivalence of emitted IL for arbitrary programs is NOT decided.',
